@@ -4,6 +4,14 @@ import json, os, sys
 HERE = os.path.dirname(os.path.abspath(__file__))
 sys.path.insert(0, HERE)
 from props import PROPS, NOT_APPLICABLE, MANIFEST_TEXT
+sys.path.insert(0, os.path.dirname(HERE))
+import check as _check
+_CERT_NOTE = {
+    "C02": "; component validity by Verus-checked automata certificates (tools/complemmas.py) carried to Uri::parts / UriRef::parts through a proved link lemma",
+    "C03": "; validity of user info / host / port by a Verus-checked automata certificate and a proved link lemma",
+    "C04": "; character-level half (URI family) from the decomposition theorem, path-language closure and authority theorems proved as Verus-checked automata certificates, plus proved lemmas over each mutator's own postcondition",
+    "C16": "; validity of base() from the same certificates (lemma_base_valid)",
+}
 VERIF = os.path.dirname(HERE)
 ids = [json.loads(l)["id"] for l in open(os.path.join(VERIF, "properties.jsonl"))]
 checks = []
@@ -21,7 +29,7 @@ for pid in ids:
         "engine": "verus-in-place",
         "level_claimed": {"category": c["level"], "text": t["level_text"], "design_ref": t.get("design_ref", "DESIGN.md section 5")},
         "level_note": t["level_note"],
-        "technique": t["technique"],
+        "technique": t["technique"] + _CERT_NOTE.get(pid, "") + ("; plus, on every run, a BOUNDED refutation search of the real crate against an executable version of the specification (concrete failing inputs, stand-in for the facade wrappers; never counted as proved)" if pid in _check.SEARCHABLE else ""),
     })
 na = [{"property_id": pid, "reason": NOT_APPLICABLE[pid]} for pid in ids if pid not in PROPS]
 m = {
